@@ -735,10 +735,10 @@ func TestC29(t *testing.T) {
 		if !vt.Thorough() && vt.Str(c["layout"]) != "aligned5" && vt.Str(c["phase"]) != "none" && vt.Int(c["downtime"]) != 5 {
 			continue
 		}
-		// phase 2: real store gateways on the model's scenarios (thorough: all of them; quick: the crash points
+		// phase 2: real store gateways on the model's scenarios (thorough: all with downtime 0 or 49 h; quick: the crash points
 		// around the result's meta.json and the first source mark / meta.json deletion, longest downtimes)
 		k, o := vt.Str(c["kind"]), vt.Str(c["ord"])
-		c["gw"] = vt.Thorough() || (vt.Int(c["downtime"]) >= 3 && vt.Str(c["layout"]) == "aligned5" && o == "first" && (k == "upmeta" || k == "mark" || k == "delmeta")) ||
+		c["gw"] = (vt.Thorough() && vt.Int(c["downtime"]) != 3) || (vt.Int(c["downtime"]) >= 3 && vt.Str(c["layout"]) == "aligned5" && o == "first" && (k == "upmeta" || k == "mark" || k == "delmeta")) ||
 			(vt.Str(c["layout"]) == "replica" && k == "mark" && o == "last")
 		add(c)
 	}
@@ -815,7 +815,7 @@ func TestC29(t *testing.T) {
 		}
 		e.reference(vt.Str(n["layout"]), conc)
 	}
-	workers := vt.Pick(3, 6)
+	workers := vt.Pick(3, 8)
 	ch := make(chan vt.Case)
 	var wg sync.WaitGroup
 	for i := 0; i < workers; i++ {
